@@ -94,12 +94,22 @@ def gen_cases(rng, stats, count):
             ops += [histgen.edit("ExtendedDaemonSet", NS, EDS, "tmplname:agent"),
                     histgen.edit("ExtendedDaemonSet", NS, EDS, "image:img:%d" % rng.choice([8, 9])), histgen.rec_eds()]
             wprop.bump(stats, "template re-applied with a metadata.name", "yes")
-        add_tail(rng, c, n + 2)
+        evict = rng.random() < 0.4 and n >= 4
+        if evict:
+            # a template change with a slow rollout, and a pod of the new template is evicted meanwhile (phase Failed): the
+            # failed-pod back-off delays its replacement, it must not stop it - not even when the superseded replica set is
+            # always reconciled before the active one
+            e["spec"]["strategy"]["rollingUpdate"]["maxUnavailable"] = 1
+            ops += [histgen.edit("ExtendedDaemonSet", NS, EDS, "image:img:%d" % rng.choice([10, 11])), histgen.rec_eds()]
+            ops += histgen.fair_round(rng, sleep=61) + histgen.fair_round(rng, sleep=61) + histgen.fair_round(rng, sleep=61)
+            ops += [histgen.kubelet("all"), histgen.kubelet("evict", 0, only="active"), histgen.rec_all_ers(None, order=-1)]
+            wprop.bump(stats, "a pod evicted during a slow rollout", "yes")
+        add_tail(rng, c, n + 2, old_first=evict)
         out.append(c)
     return out
 
 
-def add_tail(rng, c, n_nodes, resume=True):
+def add_tail(rng, c, n_nodes, resume=True, old_first=False):
     """resume everything (unless told not to), then fair rounds of all controllers with a kubelet"""
     ops = c["ops"]
     if resume:
@@ -112,6 +122,10 @@ def add_tail(rng, c, n_nodes, resume=True):
     c["tail_rounds"] = rounds
     for k in range(rounds):
         rnd = histgen.fair_round(rng, sleep=61)
+        if old_first:
+            for o in rnd:
+                if o.get("op") == "reconcile" and o.get("ctrl") == "ers":
+                    o["seconds"] = -1       # the adversarial order: superseded replica sets first
         if 3 <= k < rounds - 2:
             for o in rnd:
                 o["nodump"] = True      # judged at the end; not every round is a correspondence case
